@@ -4,5 +4,5 @@ CONSTANTS
   MaxLen = 3
   Alphabet <- AlphaFr
   CI <- MCI
-INVARIANTS WellFormedBoth VariantsAgree
+INVARIANTS WellFormedBoth VariantsAgree Idempotent
 CHECK_DEADLOCK FALSE
